@@ -17,7 +17,7 @@ use crate::stream::Stream;
 
 use std::sync::Arc;
 
-use tokio::io::AsyncWriteExt;
+use tokio::io::{AsyncWriteExt, BufReader};
 use tokio::net::{TcpListener, TcpStream, ToSocketAddrs};
 use tokio_util::sync::CancellationToken;
 
@@ -464,7 +464,7 @@ where
 ///   received without the `Connection: Keep-Alive` header.
 #[allow(clippy::too_many_arguments)]
 async fn client_handler<State>(
-    mut stream: Stream,
+    stream: Stream,
     subapps: Arc<Vec<SubApp<State>>>,
     default_subapp: Arc<SubApp<State>>,
     error_handler: Arc<ErrorHandler>,
@@ -479,9 +479,13 @@ async fn client_handler<State>(
         return;
     };
 
+    // One buffered reader serves the whole connection, so that bytes read beyond the end of one request
+    //   (for example pipelined requests arriving in the same segment) are kept for the next one
+    let mut reader = BufReader::new(stream);
+
     loop {
         // Parses the request from the stream
-        let request = Request::from_stream(&mut stream, addr).await;
+        let request = Request::from_buffered_stream(&mut reader, addr).await;
 
         let cloned_state = state.clone();
 
@@ -490,7 +494,14 @@ async fn client_handler<State>(
             if req.headers.get(&HeaderType::Upgrade) == Some("websocket") {
                 monitor.send(Event::new(EventType::WebsocketConnectionRequested).with_peer(addr));
 
-                call_websocket_handler(req, &subapps, &default_subapp, cloned_state, stream).await;
+                call_websocket_handler(
+                    req,
+                    &subapps,
+                    &default_subapp,
+                    cloned_state,
+                    reader.into_inner(),
+                )
+                .await;
 
                 monitor.send(Event::new(EventType::WebsocketConnectionClosed).with_peer(addr));
                 break;
@@ -604,7 +615,7 @@ async fn client_handler<State>(
         let status = response.status_code;
         let response_bytes: Vec<u8> = response.into();
 
-        if let Err(e) = stream.write_all(&response_bytes).await {
+        if let Err(e) = reader.get_mut().write_all(&response_bytes).await {
             monitor.send(
                 Event::new(EventType::RequestServedError)
                     .with_peer(addr)
